@@ -109,6 +109,29 @@ def cross_process(job, witnesses, outdir, tag):
             if g != w:
                 bad.append(dict(threads=threads, inputs=witnesses[i][0], got=g, want=w))
                 break
+    # the same with a fixed non-dyadic offset added to every input (SYMX_JITTER): sums are then inexact and an
+    # accumulation order that depends on threads or hash keys shows in the last bits.  No reference values exist
+    # for these inputs: the processes are compared with each other.
+    first = None
+    for threads in (1, 1, 8, 3):
+        e = env()
+        e["RAYON_NUM_THREADS"] = str(threads)
+        e["SYMX_JITTER"] = "1"
+        cmd = [HS, "observe", job["h"], inp] + ["%s=%s" % (k, v) for k, v in sorted(job.get("p", {}).items())]
+        try:
+            r = subprocess.run(cmd, cwd=ROOT, env=e, capture_output=True, text=True, timeout=300)
+            got = json.loads(r.stdout.strip().splitlines()[-1])
+        except Exception as ex:  # noqa
+            bad.append(dict(threads=threads, jitter=True, error=str(ex)[:200]))
+            continue
+        runs += 1
+        if first is None:
+            first = got
+            continue
+        for i, (g, w) in enumerate(zip(got, first)):
+            if g != w:
+                bad.append(dict(threads=threads, jitter=True, inputs=witnesses[i][0], got=g, want=w))
+                break
     return dict(witnesses=len(witnesses), processes=runs, mismatches=bad)
 
 
@@ -270,7 +293,7 @@ def main():
                 if "error" in b:
                     inconclusive.append("%s: cross-process replay failed: %s" % (label, b["error"]))
                 else:
-                    viol.append((dict(check="outputs bit-identical in a fresh process (RAYON_NUM_THREADS=%d)" % b["threads"], inputs=b["inputs"], input_names=[d.split(" in ")[0] for d in rep.get("var_domains", [])],
+                    viol.append((dict(check="outputs bit-identical in a fresh process (RAYON_NUM_THREADS=%d%s)" % (b["threads"], ", inputs offset by SYMX_JITTER=1" if b.get("jitter") else ""), inputs=b["inputs"], input_names=[d.split(" in ")[0] for d in rep.get("var_domains", [])],
                                       message="native outputs %s differ from %s" % (b["got"][:6], b["want"][:6]), found_by="cross-process replay of a path witness"), job))
         for c in rep["unconfirmed_candidates"]:
             inconclusive.append("%s: counterexample candidate for '%s' did not reproduce natively (inputs %s)" % (label, c["check"], c["inputs"]))
